@@ -18,6 +18,7 @@ LEVEL_NOTE = ('Trusted: front-end, interpreter, algebra without rounding; |w| an
 EXPLANATION = ('R10.1 per-term formulas and heating == n dUdM - spin dUdO per term; R10.2 stored sums == sum of captured terms, collapse applies the same -Im k and susceptibility to all '
                'channels so heating == host_mass (n dUdM - spin dUdO) overall; R10.3 every term grouped under a frequency signature has exactly that frequency, skipped terms have zero '
                'frequency; R10.4 synchronous circular zero-obliquity gives zero for all four outputs; R10.5 classical limit 7 e^2 n * susceptibility * (-Im k2); R10.6 registry wiring; R10.7 no in-place update of arguments; R10.8 every truncation has a range where all G^2 >= 0 (hence heating >= 0 for passive rheologies) and the first sign change of the spin rate lies at a tabulated resonance; R10.9 the public entry point hands the tables of the requested truncation and degree to the summation.')
+EXPLANATION += ' R10.10 the array twin: every interpreted call repeated with array arguments (mutable cells) returns the scalar values element for element and leaves the arguments intact.'
 
 
 def run(chk):
